@@ -364,8 +364,8 @@ PROPS["C14"] = {
     "harness_tag": "c04",
     "harness_tags": {"w1": "c08", "w2": "c08", "w3": "c08", "e1": "c05", "e2": "c05", "e3": "c05", "a5": "c03"},
     "assert_include": r"^openapi:|^no-panic$",
-    "quick": r"^VerifC04_v[123467]_(ints|nums|strs|colls|first|second|third|merge|restate|aliases|redeclared|inherited_required|grid|codes)$|^VerifC08_w1_(get|list_fixed)$|^VerifC08_w2|^VerifC08_w3_dyn$|^VerifC05_e[123]_|^VerifC03_a5_(coll_result|tagged_body)$",
-    "thorough": r"^VerifC04_v[123467]_(ints|nums|strs|colls|first|second|third|merge|restate|aliases|redeclared|inherited_required|grid|codes)$|^VerifC08_w1_(get|list_fixed)$|^VerifC08_w2|^VerifC08_w3_dyn$|^VerifC05_e[123]_|^VerifC03_a5_(coll_result|tagged_body)$",
+    "quick": r"^VerifC04_v[123467]_(ints|nums|strs|colls|first|second|third|merge|restate|aliases|redeclared|inherited_required|grid|codes)$|^VerifC08_w1_(get|list_fixed)$|^VerifC08_w2|^VerifC08_w3_(dyn|nested_arrays|lookalike_types)$|^VerifC05_e[123]_|^VerifC03_a5_(coll_result|tagged_body)$",
+    "thorough": r"^VerifC04_v[123467]_(ints|nums|strs|colls|first|second|third|merge|restate|aliases|redeclared|inherited_required|grid|codes)$|^VerifC08_w1_(get|list_fixed)$|^VerifC08_w2|^VerifC08_w3_(dyn|nested_arrays|lookalike_types)$|^VerifC05_e[123]_|^VerifC03_a5_(coll_result|tagged_body)$",
     "bounds": {"designs": {"v1": "ints (body, query, path, header)", "v2": "floats with exclusive bounds, UInt, strings with length/enum/pattern", "v3": "arrays, maps, nested user types, query array",
                            "v4": "two body types sharing member names, required query parameters (Int, ArrayOf(String)) with a default", "v6": "payload extending two bases with overlapping required lists; Reference restating required attributes",
                            "w1": "responses: result type under run-time and design-fixed views, collection", "w2": "responses: nested view override, collection declared with a DSL",
